@@ -148,76 +148,7 @@ func ruleCTORATTR(c *Ctx, r *Report) {
 					r.bad(rule, key, c.instrPos(fs.st), fmt.Sprintf("the constructor stores %s into %s only under %v and the operator of the node is not established there, so the productions that supply it cannot be found", valKey, f.Name(), guardTxt))
 					return
 				}
-				// what the productions supply
-				type supplied struct {
-					where string
-					facts []numFact
-					txt   string
-				}
-				var sup []supplied
-				for _, red := range pt.Reducers {
-					paths, _ := c.enumPathsInl(red, 20000)
-					seen := map[string]bool{}
-					for _, p := range paths {
-						for _, pc := range p.Calls {
-							g := pc.Call.Call.StaticCallee()
-							if g == nil || len(pc.Args) < 2 {
-								continue
-							}
-							ops := c.ctorOperator(g)
-							if g == general {
-								if k, ok := c.resolve(pc.Call.Call.Args[1], p.Env).(*ssa.Const); ok {
-									ops = []string{c.constName(k)}
-								}
-							}
-							if len(ops) != 1 || ops[0] != op {
-								continue
-							}
-							last := pc.Args[len(pc.Args)-1]
-							if !strings.HasPrefix(last, "[") || !strings.HasSuffix(last, "]") {
-								continue
-							}
-							v := last[1 : len(last)-1]
-							if v == "" || strings.Contains(v, ",") && !strings.Contains(v, "(") {
-								continue
-							}
-							var facts []numFact
-							var txt []string
-							if fv, err := strconv.ParseFloat(v, 64); err == nil {
-								facts = append(facts, numFact{"==", fv})
-								txt = append(txt, "the constant "+v)
-							}
-							// a widening conversion keeps order and sign: what is known of x is known of float64(x)
-							inner := v
-							for strings.HasPrefix(inner, "conv:") && strings.HasSuffix(inner, ")") {
-								if i := strings.Index(inner, "("); i > 0 {
-									inner = inner[i+1 : len(inner)-1]
-								} else {
-									break
-								}
-							}
-							for _, a := range p.Atoms {
-								nf, ok := atomNumFact(a, v)
-								if !ok && inner != v {
-									nf, ok = atomNumFact(a, inner)
-								}
-								if ok {
-									if a.Neg && (nf.op == "<" || nf.op == "<=" || nf.op == ">" || nf.op == ">=") {
-										continue // a negated float comparison also holds for NaN: no bound
-									}
-									facts = append(facts, nf)
-									txt = append(txt, a.String())
-								}
-							}
-							sig := fnName(red) + "|" + v + "|" + strings.Join(txt, "∧")
-							if seen[sig] {
-								continue
-							}
-							seen[sig] = true
-							sup = append(sup, supplied{fnName(red) + " supplies " + v, facts, strings.Join(txt, " ∧ ")})
-						}
-					}
-				}
+				sup := c.attrSuppliers(pt, general, op)
 				if len(sup) == 0 {
 					r.bad(rule, key, c.instrPos(fs.st), fmt.Sprintf("no production was found that supplies the attribute of %s, so the guard %v cannot be justified", op, guardTxt))
 					return
@@ -244,4 +175,287 @@ func ruleCTORATTR(c *Ctx, r *Report) {
 		}
 	}
 	r.floor(rule, "attribute stores of supplied arguments", nStores, 2)
+}
+
+type attrSupply struct {
+	where string
+	facts []numFact
+	txt   string
+	pos   string
+	value string
+}
+
+// attrSuppliers: for every production that builds a node of operator op with a scalar attribute argument —
+// what it has established about that number on the path to the constructor call (helpers read in place).
+func (c *Ctx) attrSuppliers(pt *ProdTable, general *ssa.Function, op string) []attrSupply {
+	var sup []attrSupply
+	for _, red := range pt.Reducers {
+		paths, _ := c.enumPathsInl(red, 20000)
+		seen := map[string]bool{}
+		for _, p := range paths {
+			for _, pc := range p.Calls {
+				g := pc.Call.Call.StaticCallee()
+				if g == nil || len(pc.Args) < 2 {
+					continue
+				}
+				ops := c.ctorOperator(g)
+				if g == general {
+					if k, ok := c.resolve(pc.Call.Call.Args[1], p.Env).(*ssa.Const); ok {
+						ops = []string{c.constName(k)}
+					}
+				}
+				if len(ops) != 1 || ops[0] != op {
+					continue
+				}
+				last := pc.Args[len(pc.Args)-1]
+				if !strings.HasPrefix(last, "[") || !strings.HasSuffix(last, "]") {
+					continue
+				}
+				v := last[1 : len(last)-1]
+				if v == "" || strings.Contains(v, ",") && !strings.Contains(v, "(") {
+					continue
+				}
+				var facts []numFact
+				var txt []string
+				if fv, err := strconv.ParseFloat(v, 64); err == nil {
+					facts = append(facts, numFact{"==", fv})
+					txt = append(txt, "the constant "+v)
+				}
+				// a widening conversion keeps order and sign: what is known of x is known of float64(x)
+				inner := v
+				for strings.HasPrefix(inner, "conv:") && strings.HasSuffix(inner, ")") {
+					if i := strings.Index(inner, "("); i > 0 {
+						inner = inner[i+1 : len(inner)-1]
+					} else {
+						break
+					}
+				}
+				for _, a := range p.Atoms {
+					nf, ok := atomNumFact(a, v)
+					if !ok && inner != v {
+						nf, ok = atomNumFact(a, inner)
+					}
+					if ok {
+						if a.Neg && (nf.op == "<" || nf.op == "<=" || nf.op == ">" || nf.op == ">=") {
+							continue // a negated float comparison also holds for NaN: no bound
+						}
+						facts = append(facts, nf)
+						txt = append(txt, a.String())
+					}
+				}
+				sig := fnName(red) + "|" + v + "|" + strings.Join(txt, "∧")
+				if seen[sig] {
+					continue
+				}
+				seen[sig] = true
+				sup = append(sup, attrSupply{fnName(red) + " supplies " + v, facts, strings.Join(txt, " ∧ "), c.instrPos(pc.Call), v})
+			}
+		}
+	}
+	return sup
+}
+
+// ATTR-DOMAIN (C05/C06): which numbers a production accepts as a distance or a power. The grammar says E~n
+// and E^n; the only conditions a production may put on the parsed number are sign tests against zero and
+// finiteness — a comparison with any other constant is a threshold the grammar does not have (a^0.5 or a~7
+// would stop parsing although the tree with that attribute prints as exactly that text).
+func ruleATTRDOMAIN(c *Ctx, r *Report) {
+	const rule = "ATTR-DOMAIN"
+	r.doc(rule, "for every production that supplies a parsed number as the scalar attribute of a Fuzzy or Boost node: on the path from the number parse to the constructor (helpers read in place) the number is compared with no constant other than zero — the accepted distances and powers are bounded by sign and finiteness only")
+	general := c.pkgFunc(pkgExpr, "Expr")
+	if general == nil {
+		r.bad(rule, "anchor", "-", "general constructor not found")
+		return
+	}
+	pt := c.prodTable()
+	n := 0
+	for _, op := range []string{"expr.Fuzzy", "expr.Boost"} {
+		for _, s := range c.attrSuppliers(pt, general, op) {
+			if _, err := strconv.ParseFloat(s.value, 64); err == nil {
+				continue // the implicit default written as a constant
+			}
+			n++
+			key := op + "|" + s.where
+			bad := ""
+			for _, f := range s.facts {
+				if f.c != 0 {
+					bad = fmt.Sprintf("%s %v", f.op, f.c)
+				}
+			}
+			if bad != "" {
+				r.bad(rule, key, s.pos, fmt.Sprintf("%s only under the condition `%s` on the parsed number (established: %s): numbers on the other side of that threshold are written in valid queries (and printed by trees that carry them) but no longer parse", s.where, bad, s.txt))
+			} else {
+				r.ok(rule, key, s.pos, "conditions on the number: "+orNone(s.txt))
+			}
+		}
+	}
+	r.floor(rule, "parsed attribute numbers", n, 2)
+}
+
+func orNone(s string) string {
+	if s == "" {
+		return "none"
+	}
+	return s
+}
+
+// CTOR-COLUMN (C11/C02): a field name handed to the general constructor as a raw string becomes a column,
+// whatever the name looks like. The single-term case of the parser hands the default field over as a raw
+// string; if the constructor gave that string a kind by its content first, a default field whose name contains
+// * or ? (or looks like /…/) would scope a lone bare term to a pattern leaf instead of the column — while the
+// same term under AND/OR/NOT, where the reducers pass an expr.Column, is scoped to the column.
+func ruleCTORCOLUMN(c *Ctx, r *Report) {
+	const rule = "CTOR-COLUMN"
+	r.doc(rule, "in the general constructor every call of the leaf classifier by content (the function the JSON decoder uses too) whose argument can be the raw left operand is reached with that raw value only over edges that exclude `a string under the Equals operator` (the column wrapping came first); and the column wrapper answers a string with Lit(Column(s)) on every path")
+	general := c.pkgFunc(pkgExpr, "Expr")
+	cls := c.leafClassifier()
+	if general == nil || cls == nil {
+		r.bad(rule, "anchor", "-", "general constructor / leaf classifier not found")
+		return
+	}
+	var excludes func(atoms []Atom) bool
+	excludes = func(atoms []Atom) bool {
+		// a test through a boolean helper: every way the helper can give that answer must exclude the case
+		for _, a := range atoms {
+			if a.Kind != "call" || a.Fn == nil || !inModule(a.Fn) {
+				continue
+			}
+			sum := c.boolSummaryOf(a.Fn)
+			if !sum.ok {
+				continue
+			}
+			sets := sum.FalseSets
+			if a.Pos {
+				sets = sum.TrueSets
+			}
+			var args []string
+			for _, v := range a.Args {
+				args = append(args, c.key(v, a.Env))
+			}
+			all := len(sets) > 0
+			for _, set := range sets {
+				var tr []Atom
+				for _, x := range set {
+					y := x
+					y.Subj, y.Val = substParams(x.Subj, args), substParams(x.Val, args)
+					y.Fn = nil
+					tr = append(tr, y)
+				}
+				if !excludes(tr) {
+					all = false
+				}
+			}
+			if all {
+				return true
+			}
+		}
+		for _, a := range c.expand(atoms, nil) {
+			if a.Kind == "type" && !a.Pos && a.Subj == "$0" && a.Val == "string" {
+				return true
+			}
+			if a.Kind == "cmp" && a.Subj == "$1" && a.Op == "!=" && a.Val == "expr.Equals" {
+				return true
+			}
+			if a.Kind == "type" && a.Pos && a.Subj == "$0" && a.Val != "string" {
+				return true
+			}
+		}
+		return false
+	}
+	n := 0
+	for _, b := range general.Blocks {
+		for _, in := range b.Instrs {
+			call, ok := in.(*ssa.Call)
+			if !ok || call.Call.StaticCallee() != cls || len(call.Call.Args) != 1 {
+				continue
+			}
+			n++
+			key := "classify|" + c.key(call.Call.Args[0], nil)
+			// the ways the argument can be the raw parameter
+			type origin struct {
+				atoms []Atom
+				via   string
+			}
+			var raws []origin
+			var walk func(v ssa.Value, at *ssa.BasicBlock, extra []Atom, depth int)
+			walk = func(v ssa.Value, at *ssa.BasicBlock, extra []Atom, depth int) {
+				if depth > 6 {
+					return
+				}
+				switch x := v.(type) {
+				case *ssa.Parameter:
+					if len(general.Params) > 0 && x == general.Params[0] {
+						raws = append(raws, origin{append(append([]Atom(nil), c.domAtoms(at)...), extra...), "block " + at.String()})
+					}
+				case *ssa.Phi:
+					for i, e := range x.Edges {
+						pred := x.Block().Preds[i]
+						var edge []Atom
+						if iff, ok := pred.Instrs[len(pred.Instrs)-1].(*ssa.If); ok && pred.Succs[0] != pred.Succs[1] {
+							edge = c.atoms(iff.Cond, pred.Succs[0] == x.Block(), nil)
+						}
+						// the facts that hold at the end of pred: those at its start plus the edge condition
+						walk(e, pred, append(append([]Atom(nil), extra...), edge...), depth+1)
+					}
+				}
+			}
+			walk(call.Call.Args[0], call.Block(), nil, 0)
+			badVia := ""
+			for _, o := range raws {
+				if !excludes(o.atoms) {
+					badVia = atomsText(o.atoms)
+				}
+			}
+			if badVia != "" {
+				r.bad(rule, key, c.instrPos(call), fmt.Sprintf("the constructor classifies its raw left operand by content (%s) on a way that has not excluded `a string under Equals` [%s]: a field name handed over as a raw string (the default field of a single-term query) is given a kind by what it looks like instead of becoming the column, so a default field named like a pattern scopes a lone bare term to a pattern leaf — but to the column under AND/OR/NOT", fnName(cls), badVia))
+			} else {
+				r.ok(rule, key, c.instrPos(call), fmt.Sprintf("%d raw origins, each behind the column wrapping", len(raws)))
+			}
+		}
+	}
+	// the column wrapper: string → Lit(Column(s))
+	nw := 0
+	for _, b := range general.Blocks {
+		for _, in := range b.Instrs {
+			call, ok := in.(*ssa.Call)
+			if !ok || call.Call.StaticCallee() == nil || call.Call.StaticCallee() == cls || len(call.Call.Args) != 1 {
+				continue
+			}
+			h := call.Call.StaticCallee()
+			if fnPkgPath(h) != pkgExpr || h.Signature.Results().Len() != 1 || !isExprPtr(h.Signature.Results().At(0).Type()) || c.key(call.Call.Args[0], nil) != "$0" {
+				continue
+			}
+			paths, _ := c.enumPathsOpt(h, 5000, &InlineOpts{None: true})
+			for _, p := range paths {
+				if p.Ret == nil {
+					continue
+				}
+				isStr := false
+				for _, a := range p.Atoms {
+					if a.Kind == "type" && a.Pos && a.Subj == "$0" && a.Val == "string" {
+						isStr = true
+					}
+				}
+				if !isStr {
+					continue
+				}
+				nw++
+				v, ve := c.resolveE(p.Ret.Results[0], p.Env)
+				good := false
+				if rc, ok := v.(*ssa.Call); ok && rc.Call.StaticCallee() != nil && len(rc.Call.Args) >= 1 {
+					ops := c.ctorOperator(rc.Call.StaticCallee())
+					ak := c.key(rc.Call.Args[0], ve)
+					good = len(ops) == 1 && ops[0] == "expr.Literal" && strings.HasPrefix(ak, "conv:expr.Column(") && strings.Contains(ak, "$0")
+				}
+				key := "wrapper|" + fnName(h) + "|string"
+				if good {
+					r.ok(rule, key, c.instrPos(p.Ret), "Lit(Column(s))")
+				} else {
+					r.bad(rule, key, c.instrPos(p.Ret), fmt.Sprintf("%s answers a raw string with %s instead of a Literal leaf holding expr.Column of that string", fnName(h), c.key(v, ve)))
+				}
+			}
+		}
+	}
+	r.floor(rule, "classifier calls in the constructor", n, 1)
+	r.floor(rule, "column-wrapper paths for a raw string", nw, 1)
 }
